@@ -10,6 +10,7 @@ import SpoxModel.Generated.Conforms_ml_v3
 import SpoxModel.Generated.Conforms_ml_v4
 import SpoxModel.Generated.Conforms_ml_v5
 import SpoxModel.Generated.AdaptAttrInventory
+import SpoxModel.Lemmas.SchemaSel
 /-!
 # C11 — every shipped operator constructor conforms to its ONNX schema
 
@@ -633,5 +634,117 @@ example :
       if p.name == "keepdims" then { p with default := some (Val.int 0) } else p }
     conformsTo c Generated.Schemas.v17.s_ReduceSum_13 = true ∧
     conformsTo c' Generated.Schemas.v17.s_ReduceSum_13 = false := by decide +kernel
+
+/-! ## which schema a node class is bound to (`_schemas.py`, round 10)
+
+`StandardNode.get_schema()` = `SCHEMAS[domain][op_type.version][name]`; `Model/SchemaSel.lean` models
+`_current_schema` / `_get_schemas_map` (tie H: driver kinds `schemasel`, `schemasget` against the real
+functions and the real `SCHEMAS` table on every run). -/
+section SchemaSel
+open SchemaSel
+variable {σ : Type}
+
+/-- **current_schema_sound.** Whatever the list (unsorted, repeated since-versions, empty) and the version:
+    what `_current_schema` returns is one of the schemas, not newer than `version`, and no schema of
+    the list that is not newer than `version` is newer than it. -/
+theorem current_schema_sound (l : List (Nat × σ)) (v : Nat) (s : Nat × σ)
+    (h : currentSchema l (some v) = some s) :
+    s ∈ l ∧ s.1 ≤ v ∧ ∀ t ∈ l, t.1 ≤ v → t.1 ≤ s.1 := by
+  have ⟨hm, hmax⟩ := pyMax_spec _ s h
+  have hm' := List.mem_filter.1 hm
+  refine ⟨hm'.1, by simpa using hm'.2, ?_⟩
+  intro t ht htv
+  exact hmax t (List.mem_filter.2 ⟨ht, by simpa using htv⟩)
+
+/-- **current_schema_none_iff.** `_current_schema` answers `None` exactly when every schema of the list is
+    newer than `version` (total: it never fails otherwise). -/
+theorem current_schema_none_iff (l : List (Nat × σ)) (v : Nat) :
+    currentSchema l (some v) = none ↔ ∀ t ∈ l, v < t.1 := by
+  unfold currentSchema
+  rw [pyMax_none, List.filter_eq_nil_iff]
+  constructor
+  · intro h t ht
+    have := h t ht
+    simp only [decide_eq_true_eq] at this
+    omega
+  · intro h t ht
+    have := h t ht
+    simp only [decide_eq_true_eq]
+    omega
+
+/-- **current_schema_exact.** When the since-versions of one operator are pairwise distinct (ONNX registers
+    one schema per (name, domain, since_version)), `_current_schema` returns `s` **iff** `s` is the schema
+    with the greatest since-version not above `version` — the definition of "the schema in force". -/
+theorem current_schema_exact (l : List (Nat × σ)) (hn : (l.map (·.1)).Nodup) (v : Nat) (s : Nat × σ) :
+    currentSchema l (some v) = some s ↔ (s ∈ l ∧ s.1 ≤ v ∧ ∀ t ∈ l, t.1 ≤ v → t.1 ≤ s.1) := by
+  constructor
+  · exact current_schema_sound l v s
+  · intro ⟨hs, hsv, hmax⟩
+    cases hr : currentSchema l (some v) with
+    | none =>
+      have := (current_schema_none_iff l v).1 hr s hs
+      omega
+    | some r =>
+      have ⟨hrl, hrv, hrmax⟩ := current_schema_sound l v r hr
+      have h1 := hmax r hrl hrv
+      have h2 := hrmax s hs hsv
+      have : r = s := fst_inj_of_nodup l hn r s hrl hs (by omega)
+      rw [this]
+
+/-- **schema_at_own_version.** `get_schema` looks a class up at its own `op_type.version`: a schema is in
+    force at its own since-version. -/
+theorem schema_at_own_version (l : List (Nat × σ)) (hn : (l.map (·.1)).Nodup) (s : Nat × σ) (hs : s ∈ l) :
+    currentSchema l (some s.1) = some s :=
+  (current_schema_exact l hn s.1 s).2 ⟨hs, Nat.le_refl _, fun _ _ h => h⟩
+
+/-- **schema_in_force_stable.** Between two consecutive since-versions nothing changes: if `s` is in force at
+    `v` and no schema of the operator has a since-version in `(v, v']`, then `s` is in force at `v'` —
+    every module version between two ONNX revisions of an operator is bound to the same schema. -/
+theorem schema_in_force_stable (l : List (Nat × σ)) (hn : (l.map (·.1)).Nodup) (v v' : Nat) (s : Nat × σ)
+    (h : currentSchema l (some v) = some s) (hv : v ≤ v')
+    (hgap : ∀ t ∈ l, ¬ (v < t.1 ∧ t.1 ≤ v')) :
+    currentSchema l (some v') = some s := by
+  have ⟨hs, hsv, hmax⟩ := current_schema_sound l v s h
+  refine (current_schema_exact l hn v' s).2 ⟨hs, by omega, ?_⟩
+  intro t ht htv
+  have := hgap t ht
+  exact hmax t ht (by omega)
+
+/-- **schemas_table_lookup.** `SCHEMAS[d][version]` has an entry for `name` **iff** `version` lies between the
+    smallest and the greatest since-version of the whole domain, the domain knows the name, and some schema of
+    that name is not newer than `version`; the entry is then `_current_schema` of that name's list. -/
+theorem schemas_table_lookup (lists : List (String × List (Nat × σ))) (version : Nat) (name : String)
+    (s : Nat × σ) :
+    schemasGet lists version name = some s ↔
+      ((∃ a ∈ allSinces lists, a ≤ version) ∧ (∃ b ∈ allSinces lists, version ≤ b)) ∧
+      ∃ l, findList lists name = some l ∧ currentSchema l (some version) = some s := by
+  unfold schemasGet inRange
+  by_cases hr : ((allSinces lists).any (fun s => decide (s ≤ version)) &&
+      (allSinces lists).any (fun s => decide (version ≤ s))) = true
+  · rw [if_pos hr]
+    have hr' := hr
+    simp only [Bool.and_eq_true, List.any_eq_true, decide_eq_true_eq] at hr'
+    cases hf : findList lists name with
+    | none => simp
+    | some l => simp [hr']
+  · rw [if_neg hr]
+    simp only [Bool.and_eq_true, List.any_eq_true, decide_eq_true_eq] at hr
+    constructor
+    · intro h; cases h
+    · intro ⟨h, _⟩; exact absurd h hr
+
+/-- ReduceSum (since 1, 11, 13): opset 17 is bound to ReduceSum-13, opset 12 to ReduceSum-11 -/
+example : currentSchema [(1, "a"), (11, "b"), (13, "c")] (some 17) = some (13, "c") ∧
+    currentSchema [(1, "a"), (11, "b"), (13, "c")] (some 12) = some (11, "b") ∧
+    currentSchema [(13, "c"), (1, "a"), (11, "b")] (some 0) = none ∧
+    currentSchema [(13, "c"), (1, "a"), (11, "b")] none = some (13, "c") := by decide
+/-- first maximal element on repeated since-versions (`max` keeps the first) -/
+example : currentSchema [(3, "x"), (3, "y")] (some 5) = some (3, "x") := by decide
+/-- a name that appears later than the version asked for is absent; outside the domain's range everything is -/
+example : schemasGet [("A", [(1, 0), (6, 1)]), ("B", [(4, 2)])] 3 "B" = none ∧
+    schemasGet [("A", [(1, 0), (6, 1)]), ("B", [(4, 2)])] 5 "B" = some (4, 2) ∧
+    schemasGet [("A", [(1, 0), (6, 1)]), ("B", [(4, 2)])] 7 "A" = none := by decide
+
+end SchemaSel
 
 end C11
